@@ -89,9 +89,10 @@ pub fn gen_case(rng: &mut Rng, faults: bool) -> CliCase {
     }
     let derive = if rng.pct(60) {
         let d = rng.pick(&["Debug", "", "Serialize, Deserialize", "Debug, Clone", "Привет", "A B", "x=y", "Debug,Default", " ", "Deserialize"]).to_string();
-        opts.push(match rng.below(3) {
+        opts.push(match rng.below(4) {
             0 => vec!["--derive".into(), d.clone()],
             1 => vec![format!("--derive={d}")],
+            2 => vec![format!("-d={d}")],
             _ => vec!["-d".into(), d.clone()],
         });
         Some(d)
@@ -99,7 +100,10 @@ pub fn gen_case(rng: &mut Rng, faults: bool) -> CliCase {
         None
     };
     rng.shuffle(&mut opts);
-    let opt_args: Vec<String> = opts.into_iter().flatten().collect();
+    let mut opt_args: Vec<String> = opts.into_iter().flatten().collect();
+    if rng.pct(10) {
+        opt_args.push("--".into());
+    }
     let mut plan = Vec::new();
     if faults {
         let n = *rng.pick(&[1usize, 1, 1, 2, 2, 3]);
